@@ -9526,11 +9526,15 @@ class TreeSequence:
 
         # TODO this should be done in C as we'll want to support this method there.
         def tjd_func(sample_set_sizes, flattened, **kwargs):
-            n = sample_set_sizes
-            T = self.ll_tree_sequence.diversity(n, flattened, **kwargs)
-            S = self.ll_tree_sequence.segregating_sites(n, flattened, **kwargs)
-            h = np.array([np.sum(1 / np.arange(1, nn)) for nn in n])
-            g = np.array([np.sum(1 / np.arange(1, nn) ** 2) for nn in n])
+            T = self.ll_tree_sequence.diversity(sample_set_sizes, flattened, **kwargs)
+            S = self.ll_tree_sequence.segregating_sites(
+                sample_set_sizes, flattened, **kwargs
+            )
+            # The sizes arrive as 32 bit integers: n**2 and 9 * n * (n - 1) below would
+            # wrap around for sample sets of more than ~21845 nodes.
+            n = np.asarray(sample_set_sizes, dtype=np.float64)
+            h = np.array([np.sum(1 / np.arange(1, int(nn))) for nn in n])
+            g = np.array([np.sum(1 / np.arange(1, int(nn)) ** 2.0) for nn in n])
             with np.errstate(invalid="ignore", divide="ignore"):
                 a = (n + 1) / (3 * (n - 1) * h) - 1 / h**2
                 b = (
